@@ -29,8 +29,8 @@ import (
 )
 
 const (
-	marker = "zzmarkerzz"
-	other  = "yyotheryy"
+	marker  = "zzmarkerzz"
+	other   = "yyotheryy"
 	customQ = "custom_q"
 )
 
@@ -442,7 +442,7 @@ func doPlan(d string, changes []schema.Change, qual, mode string) *planResult {
 }
 
 var (
-	reQuoted = regexp.MustCompile("\"[^\"]*\"|`[^`]*`|'[^']*'|[0-9]+")
+	reQuoted = regexp.MustCompile("\\[[^\\]]*\\]|\"[^\"]*\"|`[^`]*`|'[^']*'|[0-9]+")
 )
 
 func errClass(e string) string {
@@ -455,10 +455,11 @@ func errClass(e string) string {
 
 // verdict of one plan.
 type verdict struct {
-	viol    []violation
-	ood     string
-	incon   string
-	trivial bool
+	viol        []violation
+	ood         string
+	incon       string
+	inconDetail string
+	trivial     bool
 }
 
 type violation struct {
@@ -531,6 +532,7 @@ func judge(d, qual, mode string, m meta, u *universe, res, nilRes *planResult, s
 		fs, err := checkStmt(d, qual, customQ, u, st, stats)
 		if err != nil {
 			v.incon = "tokenizer"
+			v.inconDetail = err.Error() + ": " + st.Text
 			continue
 		}
 		for _, f := range fs {
@@ -560,6 +562,28 @@ type counters struct {
 	m  map[string]int64
 }
 
+// acct mirrors the counters the final self-check needs (rt does not expose them).
+type acct struct {
+	c      *rt.Ctx
+	local  counters
+	matrix counters
+}
+
+func newAcct(c *rt.Ctx) *acct {
+	return &acct{c: c, local: counters{m: map[string]int64{}}, matrix: counters{m: map[string]int64{}}}
+}
+
+func (a *acct) Count(name string, d int64) {
+	a.c.Count(name, d)
+	a.local.add(name, d)
+}
+
+func (a *acct) get(name string) int64 {
+	a.local.mu.Lock()
+	defer a.local.mu.Unlock()
+	return a.local.m[name]
+}
+
 func (c *counters) add(k string, d int64) {
 	c.mu.Lock()
 	c.m[k] += d
@@ -567,7 +591,8 @@ func (c *counters) add(k string, d int64) {
 }
 
 // runCase plans one scenario under the requested qualifiers × modes and reports.
-func runCase(c *rt.Ctx, cs Case, matrix *counters, verbose bool) {
+func runCase(a *acct, cs Case, verbose bool) {
+	c := a.c
 	p, err := prepare(cs)
 	if err != nil {
 		c.Inconclusive("prepare")
@@ -592,7 +617,7 @@ func runCase(c *rt.Ctx, cs Case, matrix *counters, verbose bool) {
 			changes, u, err := p.fresh()
 			if err != nil {
 				c.OOD("diff-error")
-				c.Count("differr:"+cs.Dialect+":"+errClass(err.Error()), 1)
+				a.Count("differr:"+cs.Dialect+":"+errClass(err.Error()), 1)
 				if verbose {
 					fmt.Println("diff error:", err)
 				}
@@ -607,7 +632,7 @@ func runCase(c *rt.Ctx, cs Case, matrix *counters, verbose bool) {
 			}
 			m := classify(changes)
 			if len(changes) == 0 {
-				c.Count("empty-changeset:"+cs.Dialect, 1)
+				a.Count("empty-changeset:"+cs.Dialect, 1)
 				continue
 			}
 			res := doPlan(cs.Dialect, changes, qual, mode)
@@ -626,41 +651,47 @@ func runCase(c *rt.Ctx, cs Case, matrix *counters, verbose bool) {
 			txt := res.text()
 			nontrivial := len(res.Stmts) > 0 && !v.trivial
 			c.Eval(rt.Digest(cs.Dialect, qual, txt), nontrivial)
-			c.Count("plan:"+cs.Dialect+":"+qual+":"+mode, 1)
-			c.Count("src:"+cs.Dialect+":"+cs.Src, 1)
-			c.Count("stmts:"+cs.Dialect+":"+qual, int64(stats.Stmts))
-			c.Count("reverse-stmts:"+cs.Dialect+":"+qual, int64(stats.Reverse))
-			c.Count("ref:"+cs.Dialect+":"+qual+":table", int64(stats.Table))
-			c.Count("ref:"+cs.Dialect+":"+qual+":type", int64(stats.Type))
-			c.Count("ref:"+cs.Dialect+":"+qual+":index", int64(stats.Index))
+			a.local.add("evals", 1)
+			a.Count("plan:"+cs.Dialect+":"+qual+":"+mode, 1)
+			a.Count("src:"+cs.Dialect+":"+cs.Src, 1)
+			a.Count("stmts:"+cs.Dialect+":"+qual, int64(stats.Stmts))
+			a.Count("reverse-stmts:"+cs.Dialect+":"+qual, int64(stats.Reverse))
+			a.Count("ref:"+cs.Dialect+":"+qual+":table", int64(stats.Table))
+			a.Count("ref:"+cs.Dialect+":"+qual+":type", int64(stats.Type))
+			a.Count("ref:"+cs.Dialect+":"+qual+":index", int64(stats.Index))
 			for h, n := range stats.Heads {
-				c.Count("stmt:"+cs.Dialect+":"+h, int64(n))
+				a.Count("stmt:"+cs.Dialect+":"+h, int64(n))
 			}
 			if res.Err != "" {
-				c.Count("rejected:"+cs.Dialect+":"+qual+":"+errClass(res.Err), 1)
+				a.Count("rejected:"+cs.Dialect+":"+qual+":"+errClass(res.Err), 1)
 			}
 			if qual == "nil" && strings.Contains(txt, marker) {
-				c.Count("control:nil-plan-mentions-marker:"+cs.Dialect, 1)
+				a.Count("control:nil-plan-mentions-marker:"+cs.Dialect, 1)
 			}
 			for _, k := range m.Kinds {
-				matrix.add(cs.Dialect+"|"+qual+"|"+mode+"|"+k, 1)
+				a.matrix.add(cs.Dialect+"|"+qual+"|"+mode+"|"+k, 1)
 				if mode == "unset" {
-					c.Count("kind:"+cs.Dialect+":"+qual+":"+k, 1)
+					a.Count("kind:"+cs.Dialect+":"+qual+":"+k, 1)
 				}
 			}
 			switch {
 			case len(m.Schemas) > 1:
-				c.Count("class:"+cs.Dialect+":"+qual+":multi-schema", 1)
+				a.Count("class:"+cs.Dialect+":"+qual+":multi-schema", 1)
 			case m.schemaLevel():
-				c.Count("class:"+cs.Dialect+":"+qual+":schema-level", 1)
+				a.Count("class:"+cs.Dialect+":"+qual+":schema-level", 1)
 			default:
-				c.Count("class:"+cs.Dialect+":"+qual+":single-schema", 1)
+				a.Count("class:"+cs.Dialect+":"+qual+":single-schema", 1)
 			}
 			if v.ood != "" {
 				c.OOD(v.ood)
+				a.local.add("ood", 1)
 			}
 			if v.incon != "" {
 				c.Inconclusive(v.incon)
+				if a.get("incon-info") < 5 {
+					a.local.add("incon-info", 1)
+					c.Info(map[string]any{"inconclusive": v.incon, "detail": v.inconDetail, "case": cs})
+				}
 			}
 			one := cs
 			one.Qual, one.Mode = qual, mode
@@ -682,7 +713,7 @@ func replay(c *rt.Ctx, raw json.RawMessage) {
 	if err := json.Unmarshal(raw, &cs); err != nil {
 		panic(err)
 	}
-	runCase(c, cs, &counters{m: map[string]int64{}}, true)
+	runCase(newAcct(c), cs, true)
 	if c.Violations() == 0 {
 		fmt.Println("held")
 	}
@@ -690,17 +721,16 @@ func replay(c *rt.Ctx, raw json.RawMessage) {
 
 func run(c *rt.Ctx) {
 	cases := schedule(c)
-	matrix := &counters{m: map[string]int64{}}
+	a := newAcct(c)
 	c.Par(len(cases), func(i int, w *rt.W) {
 		w.Begin(cases[i])
-		runCase(c, cases[i], matrix, false)
+		runCase(a, cases[i], false)
 	})
 	// a run that looked at nothing must not pass: every dialect × qualifier needs references of every
 	// kind the dialect has, and the control (marker visible without a qualifier) must have been seen.
 	ok := true
-	sum := c.Counters()
 	for _, d := range []string{"mysql", "postgres"} {
-		if sum["control:nil-plan-mentions-marker:"+d] == 0 {
+		if a.get("control:nil-plan-mentions-marker:"+d) == 0 {
 			fmt.Fprintf(os.Stderr, "c16: control failed: no %s plan without qualifier mentions the marker\n", d)
 			ok = false
 		}
@@ -710,14 +740,14 @@ func run(c *rt.Ctx) {
 				need = append(need, "type", "index")
 			}
 			for _, k := range need {
-				if sum["ref:"+d+":"+q+":"+k] < 20 {
+				if a.get("ref:"+d+":"+q+":"+k) < 20 {
 					fmt.Fprintf(os.Stderr, "c16: too few %s references observed for %s/%s\n", k, d, q)
 					ok = false
 				}
 			}
 		}
 	}
-	if ev, ood := c.Totals(); ev > 0 && ood*100 > ev*35 {
+	if ev, ood := a.get("evals"), a.get("ood"); ev == 0 || ood*100 > ev*35 {
 		fmt.Fprintf(os.Stderr, "c16: out-of-domain share too high: %d of %d\n", ood, ev)
 		ok = false
 	}
@@ -725,7 +755,7 @@ func run(c *rt.Ctx) {
 		return // no summary: the driver reports a broken check
 	}
 	full := map[string]int64{}
-	for k, v := range matrix.m {
+	for k, v := range a.matrix.m {
 		full[k] = v
 	}
 	c.Finish("every Plan.Changes[i].Cmd and every reverse statement of mysql/postgres DefaultPlan.PlanChanges, on change sets of the real differs (shared dmodel pool: create-all, drop-all, exhaustive single-edit neighbourhood in both directions, seeded walks; the monitor's own flag-built family with enums, enum arrays, serial/identity, index comments, sibling/self FKs; realm diffs over two schemas; hand-assembled two-schema / Add-Drop-ModifySchema / rename sets; HCL documents), qualifier ∈ {nil, \"\", custom_q} × mode ∈ {unset, in-place, deferred, dump, unsorted dump}, tokenized by the monitor's lexer: \"\" ⇒ schema marker absent from the text, no CREATE/DROP/ALTER SCHEMA|DATABASE / COMMENT ON SCHEMA, references unqualified, multi-schema / AddSchema / DropSchema / ModifySchema(mode unset|deferred) sets rejected; custom ⇒ every table / enum type / top-level index reference written custom_q.name and marker absent; nil ⇒ every such reference written schema.name; a one-schema set planned with nil must not be rejected with \"\"/custom. ModifySchema in place = out_of_domain. distinct = distinct (dialect, qualifier, plan text incl. reverse statements); non-trivial = at least one statement",
